@@ -1,8 +1,9 @@
 #!/usr/bin/env python3
-"""addfixed.py <id> <property> <what failed>  -- records HEAD of /repo as the fix commit of a finding."""
+"""addfixed.py <id> <property> <what failed> [commit]  -- records a fix commit of /repo (default HEAD) for a finding."""
 import json,subprocess,sys
 fid,prop,what=sys.argv[1],sys.argv[2],sys.argv[3]
-commit=subprocess.check_output(['git','-C','/repo','rev-parse','--short','HEAD'],text=True).strip()
+rev=sys.argv[4] if len(sys.argv)>4 else 'HEAD'
+commit=subprocess.check_output(['git','-C','/repo','rev-parse','--short',rev],text=True).strip()
 p='/verif/known_findings.json'
 d=json.load(open(p))
 d['findings']=[f for f in d['findings'] if f['id']!=fid]
